@@ -405,6 +405,16 @@ def _one_spike_equal(a: C.Term, b: C.Term, s: str, N: C.Term) -> bool:
 # ======================================================================================
 # R15.2 / R15.3
 # ======================================================================================
+def _is_selector(fn: ast.FunctionDef) -> bool:
+    """a three-argument routine that touches its arguments through comparisons, min and max only and returns one of them
+    (decided by evaluating it on the 13 weak orderings of three values)"""
+    from .rules_coincidence import _weak_orderings, eval_interpolate
+    try:
+        return all(eval_interpolate(fn, a, b, t) is not None for (a, b, t) in _weak_orderings(3))
+    except Exception:
+        return False
+
+
 def r15_2_mrts_sinks(ctx, eng, rule: str = 'R15.2') -> List[Ob]:
     """Inside the backends MRTS is read only as an operand of max(...) (a floor in a denominator), divided by a
     constant, or passed on at the MRTS position of a helper: all monotone sinks."""
@@ -469,6 +479,8 @@ def r15_2_mrts_sinks(ctx, eng, rule: str = 'R15.2') -> List[Ob]:
                         k = [i for i, a in enumerate(p.args) if a is top]
                         if k and k[0] < len(tp) and tp[k[0]] in ('MRTS', 't'):
                             continue
+                        if k and k[0] == 2 and len(tp) == 3 and _is_selector(tgt.node):
+                            continue        # third argument of the thresholded interpolation, whatever its parameters are called
                         if k and len(tp) == len(p.args) + 1 and k[0] + 0 < len(tp) and tp[k[0]] in ('MRTS', 't'):
                             continue
                     bad.append((n, f"passed to {p.func.id}() at a non-threshold position"))
@@ -1134,6 +1146,38 @@ def r13_3_reconcile_shape(ctx, rule: str = 'R13.3') -> List[Ob]:
             cur = par
         if bad_wrap:
             break
+    if sel_nodes and bad_wrap is None:
+        # ... and the carrier of the selection (`s.spikes = [t for ...]`, a local) is not re-bound to anything but a copy of
+        # itself afterwards (`s.spikes = np.clip(s.spikes, lo, hi)` moves two distinct times onto one edge)
+        order = {id(n): k for k, n in enumerate(ast.walk(src))}
+        stmts = [n for n in ast.walk(src) if isinstance(n, (ast.Assign, ast.AugAssign))]
+        for n in sel_nodes:
+            st = n
+            while id(st) in parents and not isinstance(st, ast.stmt):
+                st = parents[id(st)]
+            if not (isinstance(st, ast.Assign) and len(st.targets) == 1 and isinstance(st.targets[0], (ast.Name, ast.Attribute))):
+                continue
+            carrier = ast.unparse(st.targets[0])
+            # (statements of the same loop body / block that follow the selection, and everything behind the loop)
+            blk = parents.get(id(st))
+            for st2 in stmts:
+                if st2 is st:
+                    continue
+                tg = st2.targets if isinstance(st2, ast.Assign) else [st2.target]
+                if not any(ast.unparse(t_) == carrier for t_ in tg):
+                    continue
+                same_block_later = blk is not None and any(st2 is x for b_ in ('body', 'orelse') for x in getattr(blk, b_, [])
+                                                           ) and order[id(st2)] > order[id(st)]
+                if not same_block_later:
+                    continue
+                v = st2.value
+                while isinstance(v, ast.Call) and (C.dotted(v.func) or '') in ('np.array', 'np.asarray', 'list', 'np.copy') and v.args:
+                    v = v.args[0]
+                if isinstance(st2, ast.AugAssign) or ast.unparse(v) != carrier:
+                    bad_wrap = (st2, ast.unparse(st2)[:40])
+                    break
+            if bad_wrap:
+                break
     if sel_nodes:
         if bad_wrap is None:
             obs.append(ok(rule, t, f.loc(), construct=f"{fn}::selection-unchanged"))
@@ -1532,6 +1576,8 @@ def r_spiketrain_ctor(ctx, rule: str) -> List[Ob]:
         if isinstance(n, ast.Assign) and len(n.targets) == 1 and isinstance(n.targets[0], ast.Name):
             local.setdefault(n.targets[0].id, []).append(n)
 
+    stores: List[ast.Assign] = []
+
     def chain(e, depth=0, seen=frozenset()):
         """-> (list of wrapper names, root expression); a local with several definitions (`s = np.array(x)` ...
         `if not is_sorted: s = np.sort(s)`) contributes the wrappers of all of them, its root is their common root"""
@@ -1572,9 +1618,22 @@ def r_spiketrain_ctor(ctx, rule: str) -> List[Ob]:
                 a1, r1 = chain(e.body, depth, seen)
                 a2, r2 = chain(e.orelse, depth, seen)
                 return names + a1 + a2, (r1 if ast.dump(r1) == ast.dump(r2) else e)
+            if isinstance(e, ast.Attribute) and isinstance(e.value, ast.Name) and e.value.id == me and e.attr == 'spikes' \
+                    and isinstance(e.ctx, ast.Load):
+                # the attribute read back (`self.spikes = np.sort(self.spikes)`): its value is what the other stores left
+                defs = [d_ for d_ in stores if id(d_) not in seen]
+                roots = []
+                for d_ in defs:
+                    n_, r_ = chain(d_.value, depth, seen | {id(d_)})
+                    names += n_
+                    if not (isinstance(r_, ast.Attribute) and ast.unparse(r_) == ast.unparse(e)):
+                        roots.append(r_)
+                if roots and all(ast.dump(r_) == ast.dump(roots[0]) for r_ in roots):
+                    return names, roots[0]
+                return names, e
             return names, e
         return names, e
-    stores = [n for n in ast.walk(f.node) if isinstance(n, ast.Assign) and any(
+    stores += [n for n in ast.walk(f.node) if isinstance(n, ast.Assign) and any(
         isinstance(t_, ast.Attribute) and isinstance(t_.value, ast.Name) and t_.value.id == me and t_.attr == 'spikes' for t_ in n.targets)]
     t = ("SpikeTrain.__init__: the stored spike times are the given ones - converted to an array, sorted when `is_sorted` is False - "
          "none dropped, none altered (duplicates are the business of reconcile_spike_trains)")
